@@ -22,7 +22,7 @@ pub fn registry(property: &str) -> Option<CheckSpec> {
         "C19" => Some(CheckSpec {
             property: "C19",
             level: "fault_enumeration",
-            parts: vec![Part::new(scn::Buyback, 4_000, 80_000)],
+            parts: vec![Part::new(scn::Buyback, 5_000, 100_000)],
             assumptions: vec![
                 "treasury program only; every landed privileged treasury transaction of the buyback scenario is re-signed on a fork of its pre-state by an address without roles, by an address holding every other store/treasury role, and (complete_gt_exchange) by another user".into(),
                 "create_swap_v2 and cancel_swap are not exercised (no swap order flow in this scenario); claim_fees runs against a market without accrued fees".into(),
